@@ -54,7 +54,21 @@ class Adapter:
         m.submodules.mon = mon
         if cfg["attach"] == "decoder":
             dec = csr.Decoder(addr_width=mon.bus.addr_width + 1, data_width=cfg["dw"])
-            dec.add(mon.bus, addr=cfg["base"])
+            if (cfg["n"] + cfg["dw"]) % 2 == 0:
+                # a first attempt outside the decoder's address space is refused; the corrected retry must work
+                try:
+                    dec.add(mon.bus, addr=1 << (mon.bus.addr_width + 1))
+                except ValueError:
+                    pass
+                else:
+                    raise common.Violation("out-of-range-accepted", "csr.Decoder.add() accepted a window outside its address space")
+                try:
+                    dec.add(mon.bus, addr=cfg["base"])
+                except ValueError as e:
+                    raise common.Violation("retry-refused", f"after a refused attempt, csr.Decoder.add(monitor.bus, addr={cfg['base']}) "
+                                           f"is refused although it is legal: {e}")
+            else:
+                dec.add(mon.bus, addr=cfg["base"])
             m.submodules.dec = dec
             bus = dec.bus
         else:
